@@ -446,6 +446,7 @@ func uint64ToString(u uint64) string {
 
 type liveAOFSwitches struct {
 	pos int64
+	gen int // the aof generation pos was verified against
 }
 
 func (s liveAOFSwitches) Error() string {
@@ -531,14 +532,22 @@ func (s *Server) cmdAOF(msg *Message) (resp.Value, error) {
 
 	var ls liveAOFSwitches
 	ls.pos = pos
+	ls.gen = s.aofgen
 	return NOMessage, ls
 }
 
-func (s *Server) liveAOF(pos int64, conn net.Conn, rd *PipelineReader, msg *Message) error {
+func (s *Server) liveAOF(pos int64, gen int, conn net.Conn, rd *PipelineReader, msg *Message) error {
 	// Open and register in one step: an AOFSHRINK that replaces the log in
 	// between would not know about this reader, which would then wait at the
 	// end of the unlinked old file for ever.
 	s.mu.Lock()
+	if s.aofgen != gen {
+		// An AOFSHRINK replaced the log after the requested position was
+		// verified. End the connection like the rewrite does for registered
+		// readers: the follower reconnects and verifies its log again.
+		s.mu.Unlock()
+		return errors.New("aof was rewritten")
+	}
 	f, err := os.Open(s.aof.Name())
 	if err == nil {
 		s.aofconnM[conn] = f
